@@ -47,6 +47,24 @@ def sources(tier, wd, out, per_focus_quick=250, per_focus_thorough=1200, foci=FO
                      '<g opacity="0.5"><rect width="4" height="4"/>%s</g><rect x="6" width="3" height="3"/>'):
             res.append(("family/unsupported-in-group", '<svg xmlns="http://www.w3.org/2000/svg" viewBox="0 0 16 16">'
                         '<g opacity="0.5">%s</g><rect x="9" y="9" width="5" height="5"/></svg>' % (body % u), None))
+    # numbers Python prints in exponent form (no decimal point in the whole path data)
+    for d in ('M0,0 L10,0 L10,0.00001 L0,10 Z', 'M0 0 L10 0 L10 1e-5 L0 10 Z', 'M2e-7 0 L10 0 L10 8 Z',
+              'M0,0 L10,0 L10,0.00003 L0,10 Z M1,1 L2,1 L2,2 Z', 'M0 0 h10 v1e-05 L0 10 z',
+              'M0,0 L12,0 L12,-0.00002 L0,9 Z'):
+        for shell in ('<path d="%s"/>', '<g opacity="0.5"><path d="%s"/><rect x="3" y="3" width="4" height="4"/></g>',
+                      '<path d="%s" fill="red"/><rect x="9" y="9" width="5" height="5"/>'):
+            res.append(("family/exponent-numbers", '<svg xmlns="http://www.w3.org/2000/svg" viewBox="0 0 16 16">%s</svg>'
+                        % (shell % d), None))
+    # what may sit inside a <text> that allow_text lets through: text content only
+    inner = ['t', '<tspan>a</tspan>b', '<textPath>p</textPath>', '<a>link</a>', 't<animate attributeName="x"/>',
+             '<rect width="2" height="2"/>', '<tspan><image width="1" height="1"/></tspan>',
+             '<a><tspan>x</tspan></a>', '<title>n</title>t']
+    for t in inner:
+        for shell in ('<rect width="4" height="4"/><text x="1" y="9">%s</text>',
+                      '<g opacity="0.5"><rect width="4" height="4"/><text>%s</text></g>',
+                      '<text fill="red">%s</text><text>u</text>'):
+            res.append(("family/text-content", '<svg xmlns="http://www.w3.org/2000/svg" viewBox="0 0 16 16">%s</svg>'
+                        % (shell % t), None))
     for path in sorted(glob.glob(os.path.join(common.REPO, "tests", "*.svg"))):
         try:
             res.append(("tests/" + os.path.basename(path), open(path).read(), None))
